@@ -1719,7 +1719,13 @@ func callAssignOp(pkg *Package, tok token.Token, args []*internal.Elem, src []as
 				Val:  &target.SelectorExpr{X: args[0].Val, Sel: ident(name)},
 				Type: realType(op.Type()),
 			}
-			ret := toFuncCall(pkg, fn, args, 0)
+			callArgs := args
+			if sig, ok := op.Type().(*types.Signature); ok {
+				if _, ok := CheckOverloadMethod(sig); ok { // each candidate is matched as a method call on args[0]
+					callArgs = args[1:]
+				}
+			}
+			ret := toFuncCall(pkg, fn, callArgs, 0)
 			if ret.Type != nil {
 				pkg.cb.shouldNoResults(name, src)
 			}
